@@ -152,17 +152,18 @@ Fixpoint run (ts : list tok) (stk : list sop) (out : list rpn)
   match ts with
   | [] => flush stk out
   | t :: ts' =>
+      (* (thunks: the extracted OCaml is strict) *)
       let operator (s : sop) :=
         let '(stk', out') := push_op s stk out in run ts' stk' out' wv ac in
       let funcopen (n : list Z) :=
         run ts' (SFunc n :: stk) out (false :: set_top_true wv) (0%nat :: ac) in
-      let sep :=
+      let sep (_ : unit) :=
         let '(stk', out') := popto stk out in
         match wv, ac with
         | _ :: w, n :: a => run ts' stk' out' (false :: w) (S n :: a)
         | _, _ => None
         end in
-      let close :=
+      let close (_ : unit) :=
         let '(stk', out') := popto stk out in
         match stk' with
         | [] => None                                  (* mismatched parentheses *)
@@ -179,12 +180,12 @@ Fixpoint run (ts : list tok) (stk : list sop) (out : list rpn)
       | TFuncOpen n => funcopen n
       | TArrayOpen => funcopen n_array
       | TArrayRowOpen => funcopen n_arrayrow
-      | TSepArg | TSepRow => sep
+      | TSepArg | TSepRow => sep tt
       | TPre => operator SPre
       | TPost => operator SPost
       | TBin o => operator (SBin o)
       | TParenOpen => run ts' (SParen :: stk) out wv ac
-      | TParenClose | TFuncClose | TArrayClose => close
+      | TParenClose | TFuncClose | TArrayClose => close tt
       | TWs => run ts' stk out wv ac
       end
   end.
